@@ -434,6 +434,78 @@ fn base_batch_sized(n_adds: usize) -> Base {
     base
 }
 
+/// An AIR with two periodic columns (periods 2 and 8) that reads `builder.periodic_values()`
+/// unconditionally, as any real AIR with periodic columns does.
+struct PeriodicAir;
+
+impl PeriodicAir {
+    fn cols() -> Vec<Vec<F>> {
+        vec![
+            (0..2u64).map(|i| F::from_u64(7 + 3 * i)).collect(),
+            (0..8u64).map(|i| F::from_u64(100 + i * i)).collect(),
+        ]
+    }
+    fn trace() -> RowMajorMatrix<F> {
+        let cols = Self::cols();
+        let mut v = vec![];
+        for r in 0..16usize {
+            v.push(cols[0][r % 2]);
+            v.push(cols[1][r % 8]);
+            v.push(F::from_usize(r));
+        }
+        RowMajorMatrix::new(v, 3)
+    }
+}
+
+impl p3_air::BaseAir<F> for PeriodicAir {
+    fn width(&self) -> usize {
+        3
+    }
+    fn num_periodic_columns(&self) -> usize {
+        2
+    }
+    fn periodic_columns(&self) -> Vec<Vec<F>> {
+        Self::cols()
+    }
+    fn main_next_row_columns(&self) -> Vec<usize> {
+        vec![2]
+    }
+}
+
+impl<AB: p3_air::AirBuilder<F = F>> p3_air::Air<AB> for PeriodicAir {
+    fn eval(&self, builder: &mut AB) {
+        use p3_air::{AirBuilder as _, WindowAccess};
+        let main = builder.main();
+        let local = main.current_slice();
+        let next = main.next_slice();
+        let (a, b, ctr, ctr_next) = (local[0], local[1], local[2], next[2]);
+        let p0: AB::Expr = builder.periodic_values()[0].into();
+        let p1: AB::Expr = builder.periodic_values()[1].into();
+        builder.assert_zero(a.into() - p0);
+        builder.assert_zero(b.into() - p1);
+        builder.when_first_row().assert_zero(ctr.into());
+        builder.when_transition().assert_zero(ctr_next.into() - ctr.into() - AB::Expr::ONE);
+    }
+}
+
+/// An honest uni-STARK proof of an AIR with periodic columns must get a verification circuit:
+/// returns a violation when building it fails (error or panic) although the native verifier accepts.
+fn periodic_honest_check() -> Option<Value> {
+    let cfg = make_config(0);
+    let proof = catch_unwind(AssertUnwindSafe(|| prove(&cfg, &PeriodicAir, PeriodicAir::trace(), &[]))).ok()?;
+    if p3_uni_stark::verify(&cfg, &PeriodicAir, &proof, &[]).is_err() {
+        return None; // not an honest accepted proof: nothing to compare
+    }
+    let input = json!({"proof": serde_json::to_value(&proof).ok()?, "prep_commit": Value::Null, "params": params_json(true)});
+    match guarded(|| run_uni(&cfg, &PeriodicAir, &input, 0)) {
+        (Outcome::Ok(_), _) => None,
+        (o, detail) => Some(json!({"property": "C15", "kind": "honest-proof-circuit-not-built",
+            "class": format!("honest-periodic-air:{}", match &o { Outcome::Panic { .. } => "panic", Outcome::Err(_) => "err", _ => "other" }),
+            "site": "verify_p3_uni_proof_circuit", "alteration": "none", "detail": format!("{o:?} {detail}").chars().take(300).collect::<String>(),
+            "replay": {"base": "uni-periodic", "generic_path": "-", "what": "honest uni-STARK proof of the harness's PeriodicAir (periods 2 and 8, unguarded periodic_values access)"}})),
+    }
+}
+
 /// For C18: the batch-STARK *verification circuit* (the recursion front end: `verify_p3_batch_proof_circuit`
 /// over a real proof whose tables have different heights) built `n` times in this process; one line per
 /// build with the circuit's fingerprint (counts + order-sensitive hash of the op list).
@@ -968,6 +1040,11 @@ pub fn main(args: &crate::Args) {
 
     let mut hist: BTreeMap<String, u64> = BTreeMap::new();
     let mut violations: Vec<Value> = vec![];
+    if let Some(v) = periodic_honest_check() {
+        violations.push(v);
+    } else {
+        *hist.entry("honest.periodic-air.built".into()).or_default() += 1;
+    }
     let mut seen_class: BTreeMap<String, usize> = BTreeMap::new();
     let mut distinct: BTreeSet<String> = BTreeSet::new();
     let mut samples: Vec<Value> = vec![];
